@@ -207,6 +207,8 @@ def run_batch(mod, tier, base, n, nworkers, per_run_timeout=120,
                 for fd in [k[0] for k in kids.values()]:
                     os.close(fd)
                 signal.signal(signal.SIGINT, signal.SIG_DFL)
+                from . import util as _util
+                _util.enter_private_scratch()
                 if os.environ.get("VERIF_PIN", "1") == "1":
                     try:
                         cpus = sorted(os.sched_getaffinity(0))
